@@ -150,3 +150,7 @@ def signed_message():
 
 def header_keys(header_info):
     return sorted(header_info.keys())
+
+
+def old_groups(c):
+    return old(list(issue_groups(c.certificate)))
